@@ -240,8 +240,12 @@ impl TryFrom<(u32, u32)> for DMsg {
     }
 }
 
+/// a message type the target does not have: `ActorCell::send_message::<Wrong>` answers `InvalidActorType`
+struct Wrong(#[allow(dead_code)] u32, #[allow(dead_code)] u32);
+
 enum Handle {
     Send(JoinHandle<Result<(), MessagingErr<(u32, u32)>>>),
+    SendX(JoinHandle<Result<(), MessagingErr<Wrong>>>),
     SendD(JoinHandle<Result<(), MessagingErr<DMsg>>>),
     Unit(JoinHandle<()>),
 }
@@ -258,6 +262,7 @@ impl TimerRec {
     fn new(h: Handle) -> TimerRec {
         let ah = match &h {
             Handle::Send(j) => j.abort_handle(),
+            Handle::SendX(j) => j.abort_handle(),
             Handle::SendD(j) => j.abort_handle(),
             Handle::Unit(j) => j.abort_handle(),
         };
@@ -267,6 +272,7 @@ impl TimerRec {
     fn abort(&self) {
         match &self.h {
             Some(Handle::Send(h)) => h.abort(),
+            Some(Handle::SendX(h)) => h.abort(),
             Some(Handle::SendD(h)) => h.abort(),
             Some(Handle::Unit(h)) => h.abort(),
             None => self.ah.abort(),
@@ -321,6 +327,9 @@ enum Op {
     Csi(u64),
     Cea(u64),
     Cka(u64),
+    /// the free functions `send_after` / `send_interval` with a message type that is not the target's
+    Xsa(u64),
+    Xsi(u64),
     Adv(u64),
     AdvAbort(u64, usize),
     AdvStop(u64),
@@ -354,6 +363,8 @@ impl Op {
             Op::Csi(p) => format!("csi {}", ptxt(*p)),
             Op::Cea(p) => format!("cea {}", ptxt(*p)),
             Op::Cka(p) => format!("cka {}", ptxt(*p)),
+            Op::Xsa(p) => format!("xsa {}", ptxt(*p)),
+            Op::Xsi(p) => format!("xsi {}", ptxt(*p)),
             Op::Adv(d) => format!("adv {d}"),
             Op::AdvAbort(d, i) => format!("advabort {d} {i}"),
             Op::AdvStop(d) => format!("advstop {d}"),
@@ -386,6 +397,8 @@ impl Op {
             "csi" => Op::Csi(pp(1)?),
             "cea" => Op::Cea(pp(1)?),
             "cka" => Op::Cka(pp(1)?),
+            "xsa" => Op::Xsa(pp(1)?),
+            "xsi" => Op::Xsi(pp(1)?),
             "adv" => Op::Adv(n(1)?),
             "advabort" => Op::AdvAbort(n(1)?, n(2)? as usize),
             "advstop" => Op::AdvStop(n(1)?),
@@ -550,6 +563,26 @@ async fn run_case(tl: bool, ops: &[Op]) -> Vec<String> {
             Op::Cka(p) => {
                 timers.push(TimerRec::new(Handle::Unit(ractor::time::kill_after(ms(*p), target.get_cell()))))
             }
+            Op::Xsa(p) => {
+                let id = timers.len() as u32;
+                let (s2, t) = (sh.clone(), t0);
+                let h = ractor::time::send_after::<Wrong, _>(ms(*p), target.get_cell(), move || {
+                    s2.lock().unwrap().attempts.push((id, 1, now_ms(t)));
+                    Wrong(id, 1)
+                });
+                timers.push(TimerRec::new(Handle::SendX(h)));
+            }
+            Op::Xsi(p) => {
+                let id = timers.len() as u32;
+                let (s2, t) = (sh.clone(), t0);
+                let k = AtomicU32::new(0);
+                let h = ractor::time::send_interval::<Wrong, _>(ms(*p), target.get_cell(), move || {
+                    let kk = k.fetch_add(1, Ordering::SeqCst) + 1;
+                    s2.lock().unwrap().attempts.push((id, kk, now_ms(t)));
+                    Wrong(id, kk)
+                });
+                timers.push(TimerRec::new(Handle::Unit(h)));
+            }
             Op::Adv(d) => tokio::time::advance(adv_d(*d)).await,
             Op::AdvAbort(d, i) => {
                 bump_clock(*d).await;
@@ -630,6 +663,7 @@ async fn run_case(tl: bool, ops: &[Op]) -> Vec<String> {
             let Some(th) = t.h.as_mut() else { continue };
             let fin = match &*th {
                 Handle::Send(h) => h.is_finished(),
+                Handle::SendX(h) => h.is_finished(),
                 Handle::SendD(h) => h.is_finished(),
                 Handle::Unit(h) => h.is_finished(),
             };
@@ -638,6 +672,14 @@ async fn run_case(tl: bool, ops: &[Op]) -> Vec<String> {
             }
             let r = match th {
                 Handle::Send(h) => match h.await {
+                    Ok(Ok(())) => "ok".to_string(),
+                    Ok(Err(MessagingErr::SendErr(_))) => "err".to_string(),
+                    Ok(Err(MessagingErr::ChannelClosed)) => "err:ChannelClosed".to_string(),
+                    Ok(Err(MessagingErr::InvalidActorType)) => "err:InvalidActorType".to_string(),
+                    Err(e) if e.is_cancelled() => "cancelled".to_string(),
+                    Err(_) => "panic".to_string(),
+                },
+                Handle::SendX(h) => match h.await {
                     Ok(Ok(())) => "ok".to_string(),
                     Ok(Err(MessagingErr::SendErr(_))) => "err".to_string(),
                     Ok(Err(MessagingErr::ChannelClosed)) => "err:ChannelClosed".to_string(),
@@ -784,12 +826,16 @@ fn gen_case(rng: &mut Rng, st: &mut Stats) -> Vec<Op> {
         } else if r < 34 || n_timers == 0 {
             let k = rng.below(100);
             n_timers += 1;
-            if k < 6 {
+            if k < 2 {
+                Op::Xsa(*rng.pick(&per))
+            } else if k < 6 {
                 Op::Csa(*rng.pick(&per))
             } else if k < 27 {
                 Op::Sa(*rng.pick(&per))
             } else if k < 35 {
                 Op::Dsa(*rng.pick(&per))
+            } else if k < 37 {
+                Op::Xsi(*rng.pick(&iper))
             } else if k < 41 {
                 Op::Csi(*rng.pick(&iper))
             } else if k < 62 {
@@ -861,6 +907,8 @@ fn ms_case(ops: Vec<Op>) -> Vec<Op> {
             Csi(p) => Csi(p * 1000),
             Cea(p) => Cea(p * 1000),
             Cka(p) => Cka(p * 1000),
+            Xsa(p) => Xsa(p * 1000),
+            Xsi(p) => Xsi(p * 1000),
             Adv(d) => Adv(d * 1000),
             AdvAbort(d, i) => AdvAbort(d * 1000, i),
             AdvStop(d) => AdvStop(d * 1000),
@@ -938,6 +986,18 @@ fn fixed_cases() -> Vec<Vec<Op>> {
         vec![Cea(7), Cka(7), Adv(7)],
         vec![Kill, Csi(3), Csa(0), Csa(2), Cea(1), Cka(1), Adv(5)],
         vec![Hold, Stop, Csa(0), Csi(2), Adv(2), PsRelease],
+        // the free functions with a message type that is not the target's: one failing attempt (InvalidActorType)
+        vec![Xsa(0)],
+        vec![Xsa(5), Adv(4), Adv(1), Adv(1)],
+        vec![Xsi(3), Adv(3), Adv(3), Adv(3)],
+        vec![Xsi(3), Si(3), Xsa(2), Sa(2), Adv(2), Adv(1), Adv(3)],
+        vec![Xsi(3), Adv(2), Kill, Adv(1), Adv(3)],
+        vec![Kill, Xsi(3), Xsa(0), Adv(3)],
+        vec![Xsa(5), Xsi(3), AdvAbort(3, 1), AdvAbort(2, 0), Adv(1)],
+        vec![Xsa(5), Xsi(3), Drop(0), Drop(1), Adv(5)],
+        vec![Hold, Stop, Xsi(2), Xsa(1), Adv(2), PsRelease],
+        vec![Xsi(0)],
+        vec![Xsi(3), Adv(40)],
         // send_interval(Duration::ZERO): tokio's interval() panics inside the spawned task
         vec![Si(0)],
         vec![Dsi(0)],
@@ -1024,6 +1084,8 @@ fn fixed_cases() -> Vec<Vec<Op>> {
         vec![Cea(2500), Adv(2000), Adv(1000)],
         vec![Adv(1500), Csa(700), Cka(1500), Adv(500), Adv(500), Adv(500), Adv(500)],
         vec![Csi(300), Adv(500), Adv(500), Adv(1000)],
+        vec![Xsi(300), Xsa(700), Adv(500), Adv(500), Adv(1000)],
+        vec![Adv(1500), Xsi(700), Xsa(2500), Adv(500), Adv(500), Adv(500), Adv(2000)],
         // period 0 off the millisecond grid: the wheel rounds the deadline up like any other
         vec![Adv(1500), Sa(0), Ka(0), Adv(499), Adv(1)],
         vec![Adv(300), Ea(0), Si(0), Adv(700)],
